@@ -138,7 +138,7 @@ def _obj_term(src: str, holder: Path, top: Path) -> Term:
     """term of the event object named by the dotted source expression `src`"""
     parts = src.split(".")
     t: Term = ("sym", parts[0])
-    for l in loops(top):
+    for l in [x for x in top.walk_events(True) if x.kind == "loop"]:
         if holder in l.paths and l.target and l.target[0] == parts[0]:
             t = ("sym", f"{parts[0]}∈{l.loopid}")
     for a in parts[1:]:
@@ -185,7 +185,8 @@ def r3(ctx: Ctx) -> None:
         f = ctx.func(q)
         seen = False
         for p in ctx.paths(q):
-            for holder in [p] + [bp for l in loops(p) for bp in l.paths]:
+            all_loops_ = [l for l in p.walk_events(True) if l.kind == "loop"]
+            for holder in [p] + [bp for l in all_loops_ for bp in l.paths]:
                 for e in holder.events:
                     if not (e.kind == "call" and e.site.how == "ctor" and e.name == cls_):
                         continue
@@ -193,7 +194,7 @@ def r3(ctx: Ctx) -> None:
                     src = obj
                     if src is None:
                         # expiry: the loop element
-                        for l in loops(p):
+                        for l in all_loops_:
                             if holder in l.paths:
                                 src = l.target[0]
                     bad = []
